@@ -1,14 +1,138 @@
 """Per-property claim texts for MANIFEST.json (what is proved, what is residue)."""
 
-SEQ = ("Trusted: prelude stub contracts (file/lock/log/anyhow/std stand-ins, listed per run in evidence.trusted_base), sequential semantics for "
-       "lock-erased bodies, logging macros without side effects, bincode/CRC32/serde as specified by their stubs. ")
+SEQ = ("Trusted: the prelude stub contracts (file / lock / log / anyhow / std stand-ins; every one is listed per run in evidence.coverage.trusted_base), "
+       "sequential semantics for lock-erased bodies (the caller owns every lock-protected field for the whole call), logging macros without side "
+       "effects, bincode/CRC32/serde as specified by their uninterpreted stubs, 64-bit usize, counters that do not wrap. ")
+TECH_V = "contract-based deductive verification (Verus) of functions re-extracted from /repo on every run"
+TECH_VK = TECH_V + "; Kani function-level harnesses (complete where loop-free, otherwise labelled bounded) with native counterexample replay"
 
 CLAIMS = {
     "C01": {
-        "text": "Deductive proof (Verus, unbounded) on the real function bodies that each step of the durability argument meets its contract: the WAL replay "
-                "loop computes replay(documents, entries, snapshot_seq, snapshot_ts) for every entry list, the recovered counter exceeds every sequence seen. "
-                "Crash instants between system calls are covered only through effect-order contracts, not enumerated.",
-        "note": SEQ + "Residue: crash points inside third-party code, server main(), statvfs, file creation order outside extracted regions.",
-        "design": "DESIGN.md 5 (C01), 4 (theory)",
+        "text": "Deductive proof (Verus, unbounded in inputs and loop iterations) on the real function bodies that every step of the durability argument meets "
+                "its contract: WAL framing/fsync/rollback (wal_writer), the reader equals the frame parser and ignores a torn tail (wal_reader + round-trip lemma), "
+                "write paths append to the log before any in-memory mutation and change nothing on Err (backend_*), rotation publishes a segment before it is "
+                "written (rotate_wal), compaction keeps every non-covered segment and files are unlinked only after the pruned MANIFEST is durable "
+                "(compaction, snapshot_publish), temp-file/fsync/rename/dir-fsync order (atomic_publish), replay = replay_spec with sequence skipping "
+                "(recover_replay, recover_segments), theory lemmas T1-T4 (theory_durability). Crash instants between system calls are covered through "
+                "effect-order capabilities, not enumerated; the composition of the per-function contracts into the whole-history statement is the pure theory, "
+                "not one end-to-end theorem about the binary.",
+        "note": SEQ + "Residue: crash points inside third-party code, server main() (should_attempt_recovery), statvfs, file creation order outside the extracted "
+                      "regions, WalWriter::append glue/retry closure, periodic fsync for intervals > 0.",
+        "design": "DESIGN.md 5 (C01), 4 (theory), 7 (F-C01-a fixed)",
+    },
+    "C02": {
+        "text": "Same contracts as C01 read for clean restarts: replay of snapshot + log equals the live view (recover_replay, recover_segments, theory T2/T3/T4), "
+                "every write path updates the abstract view exactly as its log entry says (backend_insert/delete/update_metadata/batch_delete over the whole view), "
+                "snapshot load checks integrity and alignment (snapshot_load), compaction never drops a non-covered segment (compaction).",
+        "note": SEQ + "Residue: compact_tombstones (index rebuild), create_snapshot's live-document collection (iterator chains), HNSW index contents, "
+                      "normalisation idempotence beyond the bounded Kani pair check, TieredEngine::recover wrapper.",
+        "design": "DESIGN.md 5 (C02)",
+    },
+    "C03": {
+        "text": "For every write path the clause 'Err => the store view is bit-identical' is proved on the real body (backend_*), a failed append is truncated back "
+                "(wal_writer, with the exact two-fault corner stated), the engine layer leaves both tiers and the query cache unchanged on a cold-tier error "
+                "(engine_write_paths), and the pre-flight rejects everything the index can reject before the log append (preflight: Kani, dimension <= 3, all "
+                "f32 bit patterns, parametric in the sum-of-squares kernel; counterexamples replay natively).",
+        "note": SEQ + "Residue: errno-level fault injection is represented by stub contracts 'may return Err with any prefix written'; classify_error string matching; "
+                      "circuit-breaker timing; retry closure glue; insert's failure clause when the emergency drain runs; dimensions > 3 for the pre-flight pair.",
+        "technique": TECH_VK,
+        "design": "DESIGN.md 5 (C03), 7 (F-C03-a fixed)",
+    },
+    "C04": {
+        "text": "Every read path (point, bulk, metadata, existence) is proved to return only values whose digest and token match the canonical store, with "
+                "metadata taken from the canonical store, scrubbing every non-matching cache/mirror hit, for ARBITRARY cache and mirror contents "
+                "(read_paths; backend accessors as functions of the store view; vector_cache/lru; engine write order: engine_write_paths; drain keeps existing "
+                "canonical records: drain).",
+        "note": SEQ + "Cache strategies behind dyn are stubs that may return anything (which is what the property wants); digest collision-freedom assumed. "
+                      "Known finding F-C04-a (drain makes a mirror-only entry durable) is listed in known_findings.txt when the drain unit is present.",
+        "design": "DESIGN.md 5 (C04)",
+    },
+    "C06": {
+        "text": "Oversampling bounds and user-distance conversion are proved for all inputs (search_numeric: Kani complete); result mapping/merge/filter units "
+                "(backend_map, merge, hot_filter) prove at-most-k, distinct, live, ordered results copied from the inputs.",
+        "note": SEQ + "Residue: the reported distance being the TRUE distance (SIMD numerics), HotTier scan and HNSW graph search, async/timed paths. CBMC "
+                      "over-approximates sqrt: only sign/NaN facts of the Euclidean conversion are proved.",
+        "technique": TECH_VK,
+        "design": "DESIGN.md 5 (C06)",
+    },
+    "C07": {
+        "text": "Exact-key hits are proved to be for the bit-identical query, never for a larger k, and never stored across an invalidation (generation guard; "
+                "every invalidator bumps the generation before it mutates) on the real get_scoped / insert_with_k_scoped_internal / invalidate_* / clear.",
+        "note": SEQ + "Residue: the similarity path find_similar_query (closure over captured state) and its cosine criterion, the pruning bound of "
+                      "invalidate_for_insert for SIMD summation order, search-thread/write-thread races.",
+        "design": "DESIGN.md 5 (C07), 7 (F-C07-a fixed)",
+    },
+    "C10": {
+        "text": "The id-space partition (global id = tenant<<32 | local; injective, invertible, out-of-range rejected; foreign ids unmap to 0) and the reserved-key "
+                "sanitiser are proved on the real functions, with the bit-vector lemma T5.",
+        "note": SEQ + "Residue (large): RPC handler wiring, auth interceptor, /usage, query_cache_scope hash injectivity, everything async. The claim is the "
+                      "partition and helper functions, not end-to-end isolation.",
+        "design": "DESIGN.md 5 (C10)",
+    },
+    "C11": {
+        "text": "The reference matcher equals the recursive matches_spec written from the statement; the filter compiler returns exactly the alive documents that "
+                "satisfy matches_spec (or None only for a bare NOT); ids_for_metadata_filter/scan return exactly the live matching ids; the numeric order key is "
+                "order-isomorphic to f64 comparison (Kani complete); the filtered delete hands exactly the canonical matches to batch_delete.",
+        "note": SEQ + "Residue: index maintenance (insert_doc/remove_doc/replace_doc/rebuild_from keep the accessor contracts) is assumed; BTreeMap::range, roaring; "
+                      "proto filter types are hand-written mirrors of the prost output.",
+        "technique": TECH_VK,
+        "design": "DESIGN.md 5 (C11), 7 (F-C11-a fixed)",
+    },
+    "C12": {
+        "text": "Pruning keeps the keep-set closed under parent_id and unlinks only outside it (prune); restore verifies every archive of the chain before the "
+                "target is touched, extracts full-first and never clears without confirmation (restore_order, clear_guard, archive_header) — as far as "
+                "those units are present (see Units).",
+        "note": SEQ + "Residue: archive content = data directory at backup time; starting from the restored directory yields the collection; backup selection logic.",
+        "design": "DESIGN.md 5 (C12), 7 (F-C12-a fixed)",
+    },
+    "C13": {
+        "text": "Strict reader: Ok => zero corrupted frames, every complete frame CRC-checked and decoded, nothing complete dropped (wal_reader); snapshot load checks "
+                "magic, size, CRC and version before decode and validates alignment (snapshot_load); Strict && Ok => every manifest segment existed and was read "
+                "strictly (recover_segments); a fallback snapshot older than the committed one is accepted only if replay saw every sequence number in between "
+                "(recover_strict_gap).",
+        "note": SEQ + "CRC32 detecting a given flip is a property of crc32fast (trusted). Known finding F-C13-b (truncation in a non-final segment is read as a torn "
+                      "tail) is carried by a failing obligation and listed in known_findings.txt.",
+        "design": "DESIGN.md 5 (C13), 7 (F-C13-a fixed, F-C13-b known)",
+    },
+    "C14": {
+        "text": "The four quota operations are proved against the exact counting contract (exists => unchanged; below max => +1; at max => Err unchanged; "
+                "reserve/release/decrement saturating; other tenants untouched; count <= max preserved).",
+        "note": SEQ + "Residue: concurrency (per-tenant mutex), Bulk*/BatchDelete handlers, the start-up recount in main; handler wiring is not verified.",
+        "design": "DESIGN.md 5 (C14)",
+    },
+    "C15": {
+        "text": "Request validators: Ok => every stated limit holds, no panic/overflow (api_validation, Verus); non-finite vectors are refused by the engine's own "
+                "pre-flight on every path and refused requests have no effect (preflight Kani bounded dim <= 3; backend_insert Err clause); oversampling never overflows "
+                "(search_numeric).",
+        "note": SEQ + "Residue: bulk handlers' inline checks, the panic-containment tower layer, tonic decoding limits; lane-wise finiteness in the validator is a bounded Kani check.",
+        "technique": TECH_VK,
+        "design": "DESIGN.md 5 (C15)",
+    },
+    "C17": {
+        "text": "Unchecked accessors of the packed level-0 store and the visited bitmap are proved in bounds under the representation invariant (Verus, nonlinear "
+                "arithmetic); SIMD kernels are checked for out-of-bounds access by Kani up to a stated length bound (bounded, never counted as proved).",
+        "note": SEQ + "Residue: that the call sites in the search loops establish dense < len is NOT verified; aliasing/use-after-free beyond Kani's memory model in the bounded runs.",
+        "technique": TECH_VK,
+        "design": "DESIGN.md 5 (C17)",
+    },
+    "C18": {
+        "text": "KyroDbConfig::validate Ok implies the statement's predicate, for every value of the safety-relevant discrete settings (symbolic) and an enumerated set of "
+                "environment/host strings, with cover guards on every accepting class (Kani).",
+        "note": "Trusted: CBMC semantics; cheap anyhow stand-in. Residue: KyroDbConfig::load (config crate merge), main calling validate before opening anything; strings are enumerated, not symbolic.",
+        "technique": "Kani harnesses over kani::any() on the real validate (strings enumerated), native counterexample replay",
+        "design": "DESIGN.md 5 (C18)",
+    },
+    "C19": {
+        "text": "Per-step token-bucket contract proved bit-precisely for every f64/u32 state and elapsed time (Kani complete: 0 <= tokens <= capacity, admitted <=> refilled >= 1, "
+                "refund bounded), the refill amount pinned structurally (token_bucket_shape, Verus) and the window bound as lemma T6 over mathematical arithmetic.",
+        "note": "Trusted: CBMC IEEE-754 semantics; Instant/Duration stubs. Residue: RateLimiter::check_limit (tenant-then-global order, refund) through Arc<Mutex> in a HashMap, thread safety, caller clock; T6 treats machine arithmetic as mathematical.",
+        "technique": TECH_VK,
+        "design": "DESIGN.md 5 (C19)",
+    },
+    "C20": {
+        "text": "LruIndex is proved against its recency-order model (all operations), VectorCache keeps keys(cache) = keys(lru) and len <= capacity after insert, the "
+                "engine's insert keeps the recent-write tier within its hard limit, evicted content stays readable through the canonical store (read_paths).",
+        "note": SEQ + "Residue: SemanticAdapter's IndexMap store, learned-cache internals behind dyn CacheStrategy; VectorCache::new(0) is rejected by Config::validate only.",
+        "design": "DESIGN.md 5 (C20)",
     },
 }
